@@ -154,3 +154,116 @@ def docstring_free_body(f: FuncInfo) -> List[ast.stmt]:
     if b and isinstance(b[0], ast.Expr) and isinstance(b[0].value, ast.Constant) and isinstance(b[0].value.value, str):
         return b[1:]
     return b
+
+
+def single_assignments(root: ast.AST) -> Dict[str, ast.AST]:
+    """Local temporaries of `root` (a function or a loop): names bound exactly once, by a plain `name = expr`."""
+    stores: Dict[str, int] = {}
+    rhs: Dict[str, ast.AST] = {}
+    for n in own_nodes(root):
+        if isinstance(n, ast.Name) and isinstance(n.ctx, (ast.Store, ast.Del)):
+            stores[n.id] = stores.get(n.id, 0) + 1
+        if isinstance(n, ast.Assign) and len(n.targets) == 1 and isinstance(n.targets[0], ast.Name):
+            rhs[n.targets[0].id] = n.value
+        if isinstance(n, ast.AnnAssign) and isinstance(n.target, ast.Name) and n.value is not None:
+            rhs[n.target.id] = n.value
+    if isinstance(root, (ast.FunctionDef, ast.AsyncFunctionDef)):
+        for a in root.args.posonlyargs + root.args.args + root.args.kwonlyargs:
+            stores[a.arg] = stores.get(a.arg, 0) + 1
+    return {k: v for k, v in rhs.items() if stores.get(k) == 1}
+
+
+def inline_temps(root: ast.AST, expr: ast.AST, depth: int = 4) -> ast.AST:
+    """`expr` with the single-assignment temporaries of `root` replaced by their defining expressions (a rule that matches the
+    shape of a test must not depend on whether an operand was given a name first)."""
+    import copy
+    temps = single_assignments(root)
+
+    class Sub(ast.NodeTransformer):
+        def __init__(self, d): self.d = d
+        def visit_Name(self, n):
+            if isinstance(n.ctx, ast.Load) and n.id in temps and self.d > 0:
+                return Sub(self.d - 1).visit(copy.deepcopy(temps[n.id]))
+            return n
+    return Sub(depth).visit(copy.deepcopy(expr))
+
+
+def local_defs(root: ast.AST) -> Dict[str, List[ast.FunctionDef]]:
+    out: Dict[str, List[ast.FunctionDef]] = {}
+    for n in ast.walk(root):
+        if n is not root and isinstance(n, ast.FunctionDef):
+            out.setdefault(n.name, []).append(n)
+    return out
+
+
+def expand_local_calls(root: ast.AST, expr: ast.AST, depth: int = 3) -> List[ast.AST]:
+    """Alternatives of `expr` in which calls to functions defined locally inside `root` (closures chosen by a condition, small
+    helpers) are replaced by the helper's returned expression with the parameters substituted -- one alternative per definition
+    of the name.  A helper with more than one `return` is left unexpanded."""
+    import copy
+    defs = local_defs(root)
+    if depth <= 0 or not defs:
+        return [expr]
+    target = None
+    for x in ast.walk(expr):
+        if isinstance(x, ast.Call) and isinstance(x.func, ast.Name) and x.func.id in defs:
+            cands = []
+            for d in defs[x.func.id]:
+                rets = [r for r in own_nodes(d) if isinstance(r, ast.Return) and r.value is not None]
+                if len(rets) != 1:
+                    cands = []; break
+                params = [a.arg for a in d.args.posonlyargs + d.args.args]
+                sub = dict(zip(params, x.args))
+                sub.update({k.arg: k.value for k in x.keywords if k.arg})
+                cands.append((rets[0].value, sub))
+            if cands:
+                target = (x, cands); break
+    if target is None:
+        return [expr]
+    call, cands = target
+    out: List[ast.AST] = []
+    for body, sub in cands:
+        class SubP(ast.NodeTransformer):
+            def visit_Name(self, n):
+                return copy.deepcopy(sub[n.id]) if isinstance(n.ctx, ast.Load) and n.id in sub else n
+        new_body = SubP().visit(copy.deepcopy(body))
+
+        class Rep(ast.NodeTransformer):
+            def visit_Call(self, n):
+                if norm(n) == norm(call):
+                    return new_body
+                return self.generic_visit(n)
+        e2 = Rep().visit(copy.deepcopy(expr))
+        out += expand_local_calls(root, e2, depth - 1)
+    return out
+
+
+class Renaming(dict):
+    """parameter -> caller-side text; .args: parameter -> caller-side expression; .caller: the calling FuncInfo"""
+    args: Dict[str, ast.AST] = {}
+    caller: Optional[FuncInfo] = None
+
+
+def helper_scopes(prog, f: FuncInfo, depth: int = 1):
+    """(FuncInfo g, rename) for f itself and for the module-level functions f calls by plain name (an extracted helper):
+    `rename` maps g's parameter names to the normalised text of the caller's arguments, so that a rule phrased over f's
+    names can read the helper's body."""
+    from .model import norm as _norm
+    out = [(f, Renaming())]
+    seen = {f.fq()}
+    frontier = [(f, Renaming())]
+    for _ in range(depth):
+        nxt = []
+        for g, ren in frontier:
+            for c in own_nodes(g.node):
+                if isinstance(c, ast.Call) and isinstance(c.func, ast.Name):
+                    r = prog.resolve_global(g.module, c.func.id)
+                    if r and r[0] == 'func' and r[1].fq() not in seen:
+                        h = r[1]
+                        seen.add(h.fq())
+                        b = bind_args(c, h, False)
+                        ren2 = Renaming({p: ren.get(_norm(a), _norm(a)) for p, a in b.items()})
+                        ren2.args = dict(b); ren2.caller = g
+                        out.append((h, ren2)); nxt.append((h, ren2))
+        frontier = nxt
+    return out
